@@ -187,7 +187,14 @@ pub fn tinv(seed: u64, dir: &str, nrec: usize) {
     // listings whose single lines exceed a megabyte: six records of 250 000 bases (tens of thousands of runs each) written by
     // several workers at once - a line is one write under the lock, however long it is
     {
-        let big: Vec<Vec<u8>> = (0..6).map(|_| (0..250_000).map(|_| *rng.pick(b"ACGT")).collect()).collect();
+        // (between them short reads: a long line and short lines meet at the writer)
+        let mut big: Vec<Vec<u8>> = Vec::new();
+        for j in 0..6 {
+            big.push((0..250_000 + j * 50_000).map(|_| *rng.pick(b"ACGT")).collect());
+            for _ in 0..40 {
+                big.push((0..rng.range(20, 120)).map(|_| *rng.pick(b"ACGT")).collect());
+            }
+        }
         let binp = format!("{}/tinv_big.fa", dir);
         write_fasta(&binp, &big);
         for (name, m2s) in [("min-s2m long lines", false), ("min-m2s long lines", true)] {
